@@ -1,6 +1,7 @@
 package main
 
 import (
+	"os"
 	"bytes"
 	"encoding/json"
 	"flag"
@@ -26,6 +27,7 @@ type treeNode struct {
 	Hidden bool      `json:"hidden"`
 	Policy string    `json:"policy"` // "" = inherited; continue | exit | panic = set in the command's initialiser
 	IntMulti bool    `json:"intmulti"` // the Int option is declared multi-valued (IntsOpt)
+	IntEnv   string  `json:"intenv"`   // the Int option is backed by an environment variable holding this text ("" = no variable)
 	Late   bool      `json:"late"`   // (children of the application only) declared after the earlier runs, before the observed one
 }
 
@@ -36,6 +38,8 @@ type treeCase struct {
 	Argv    []string   `json:"argv"`
 	// Prerun: argument vectors run first on the SAME application object (outcome ignored); the observed run is the last one
 	Prerun  [][]string `json:"prerun"`
+	// PreSpec: the application's spec string during the earlier runs (nil: the same as for the observed run)
+	PreSpec *string `json:"prespec"`
 }
 
 type treeResult struct {
@@ -163,7 +167,11 @@ func runTree(c treeCase) (r treeResult) {
 			logs[path]["O:"+optKey(o.Names)] = l
 			cmd.Var(cli.VarOpt{Name: o.Names, Value: &rec{flag: o.Flag, log: l}})
 		}
-		if n.IntOpt != "" && !n.Bare && n.IntMulti {
+		if n.IntOpt != "" && !n.Bare && n.IntMulti && n.IntEnv != "" {
+			os.Setenv("VERIF_TREE_N", n.IntEnv)
+			cmd.Ints(cli.IntsOpt{Name: n.IntOpt, EnvVar: "VERIF_TREE_N"})
+			os.Unsetenv("VERIF_TREE_N")
+		} else if n.IntOpt != "" && !n.Bare && n.IntMulti {
 			cmd.Ints(cli.IntsOpt{Name: n.IntOpt})
 		} else if n.IntOpt != "" && !n.Bare {
 			ints[path] = cmd.Int(cli.IntOpt{Name: n.IntOpt, Value: -1})
@@ -194,6 +202,9 @@ func runTree(c treeCase) (r treeResult) {
 		}
 	}
 	build(app.Cmd, 0)
+	if c.PreSpec != nil && len(c.Prerun) > 0 {
+		app.Spec = *c.PreSpec
+	}
 	for _, pre := range c.Prerun {
 		func() {
 			defer func() { recover() }()
@@ -201,6 +212,9 @@ func runTree(c treeCase) (r treeResult) {
 		}()
 		r.Log, r.Exits = []string{}, []int{}
 		errBuf.Reset()
+	}
+	if c.PreSpec != nil && len(c.Prerun) > 0 {
+		app.Spec = c.Nodes[0].Spec
 	}
 	for _, si := range c.Nodes[0].Subs {
 		si := si
